@@ -317,6 +317,13 @@ def scenarios():
         outputs=lambda t: ["plotsx_first.png", "plotsx_second.png"],
         cost="plot", bystanders=("plotsx", "plotsx.png"))
 
+    # a target that ends with a dot: matplotlib replaces the empty extension
+    # by its default format as well
+    add("writer:plot-trailing-dot", _writer(lambda t, w: _figs().export(
+        str(t), confirm_overwrite=w)), "plotsz.",
+        outputs=lambda t: ["plotsz_first.png", "plotsz_second.png"],
+        cost="plot", bystanders=("plotsz.", ))
+
     def export_default_pdf(t, w):
         import matplotlib as mpl
         with mpl.rc_context({"savefig.format": "pdf"}):
